@@ -47,6 +47,14 @@ CHECKS["C02"] = dict(
     technique="bounded-exhaustive input enumeration (literal shapes, structural families, all single-token mutations) on the real pipeline, CPython compile as oracle",
 )
 
+CHECKS["C11"] = dict(
+    category="exploration",
+    text="Metamorphic exploration over the complete pool: every M0 program (C01 families), every C02 family member (literal shapes, vanishing bodies, match orders, parameter lists), every repository sample and every single-token mutant of the mutation space is transpiled with annotate off and on; the verdicts must be equal and, on success, the two outputs must have identical Python ASTs after annotation erasure (AnnAssign -> Assign, parameter/return annotations removed, typing imports unused after erasure removed). Behavioural equality of the two outputs is additionally enforced by C01 on the executable pool.",
+    design_ref="DESIGN.md §4 C11",
+    note="Erasure is defined on CPython's ast; outputs neither setting can be parsed are C02's business and only counted here.",
+    technique="bounded-exhaustive metamorphic comparison (both configurations of every enumerated input) with AST-level annotation erasure",
+)
+
 REASON_PENDING = "check not built yet in this session (see DESIGN.md Appendix D build order); nothing is claimed for it"
 
 
